@@ -35,8 +35,12 @@ func C04(c *mc.Ctx) {
 	// the same between two hubs with a source service that is registered as unordered
 	runIC(c, "C04", c04Oracle, fix.Options{}, "icmc-unordered-inter-hub",
 		[]string{"req:pu:n:2", "rc:pu:n:s", "rc:pu:n:f", "nt:pu:n:br", "nt:pu:d:br", "nt:pu:d:bf", "nt:pu:n:bf"}, hubDepth)
+	// the remote hub's record frozen / activated again by governance: a request to an unavailable hub
+	// begins as failed; BEGIN_FAILURE only goes to FAILURE (by the failure receipt), never by a notice
+	runIC(c, "C04", c04Oracle, fix.Options{}, "icmc-hubdown-inter-hub",
+		[]string{"hubfz", "hubac", "req:ph:n:2", "rc:ph:n:f", "rc:ph:n:s", "nt:ph:n:bf", "nt:ph:n:br"}, hubDepth)
 	fix.Cleanup()
-	c.Set("rule_inter_hub", "BFS (depth 4, thorough 5) on a world with a registered remote BitXHub: requests of a local service to a service on the remote hub, receipts success/failure/rollback signed by two of the remote hub's four validators, begin-failure and begin-rollback notices of the destination hub (next index, after a final state, unknown id), empty blocks: BEGIN goes to SUCCESS/FAILURE by receipt, to FAILURE/ROLLBACK by notice, no timeout runs on the source hub, final states never change, every other event is rejected; and as destination hub: requests signed by the remote hub, receipts of the local destination before / in / after the expiry block")
+	c.Set("rule_inter_hub", "BFS (depth 4, thorough 5) on a world with a registered remote BitXHub: requests of a local service to a service on the remote hub, receipts success/failure/rollback signed by two of the remote hub's four validators, begin-failure and begin-rollback notices of the destination hub (next index, after a final state, unknown id), empty blocks: BEGIN goes to SUCCESS/FAILURE by receipt, to FAILURE/ROLLBACK by notice, no timeout runs on the source hub, final states never change, every other event is rejected; and as destination hub: requests signed by the remote hub, receipts of the local destination before / in / after the expiry block; and with the remote hub frozen / activated again by governance (requests to an unavailable hub begin as failed; a transaction in BEGIN_FAILURE is finished by the failure receipt only, notices do not apply to it)")
 	c.Set("rule", "BFS over block histories of requests (timeout 0/1/2, available and blacklisting destination), receipts success/failure/rollback (next, duplicate i.e. after a final state), empty blocks and reopen; after every block the stored status of every known transaction id and the receipt verdict of every IBTP are compared with the reference state machine transcribed from the property")
 	c.Assume("all proofs valid (HappyRule / two valid validator signatures); this node is the source hub in the inter-BitXHub exploration")
 	if c.Get("rejections_expected") == 0 || c.Get("acceptances_expected") == 0 {
